@@ -10,6 +10,10 @@ from vf import gens
 from vf.runner import Outcome, Prop, Sub, Violation
 
 DIFFS = ("positive", "negative", "absolute", "plain")
+# every non-float dtype has to be promoted (skimage.img_as_float semantics: unsigned -> [0, 1],
+# signed -> [-1, 1]); the analysis treats "anything that is not float" alike
+INT_DTYPES = ("uint8", "uint16", "int16", "int32", "int64")
+TVD_KINDS = ("tvd", "tvd-cfg")
 CHANNEL_DROPPING = ("callable", "red", "green", "blue", "red+green", "gray", "negative-key", "hsv")
 
 
@@ -59,6 +63,43 @@ TVD_KW = {"method": "chambolle", "weight": 0.25, "max_num_iter": 30, "eps": 1e-5
 def _ref_tvd(x):
     return skimage.restoration.denoise_tv_chambolle(
         x, weight=TVD_KW["weight"], max_num_iter=TVD_KW["max_num_iter"], eps=TVD_KW["eps"])
+
+
+# a TVD restoration configured through an option group: every option may carry a key prefix
+# (`TVD(key="restoration ", **{"restoration weight": ...})`), may be given or left out
+TVD_KEYS = ("", "restoration ", "tvd_")
+TVD_METHODS = ("chambolle", "anisotropic bregman", "isotropic bregman")
+
+
+@st.composite
+def tvd_configs(draw):
+    method = draw(st.sampled_from(TVD_METHODS + ("chambolle", None)))
+    chambolle = method in (None, "chambolle")
+    # an option is left out only where the wrapper's default is also the default of the wrapped
+    # skimage routine (Chambolle: 0.1 / 200 / 2e-4), i.e. where "not configured" is unambiguous
+    maybe = (lambda xs: xs + [None]) if chambolle else (lambda xs: xs)
+    return {
+        "key": draw(st.sampled_from(TVD_KEYS)),
+        "method": method,
+        "weight": draw(st.sampled_from(maybe([0.25, 0.5, 0.125]))),
+        "max_num_iter": draw(st.sampled_from(maybe([20, 60, 150]))),
+        "eps": draw(st.sampled_from(maybe([1e-2, 1e-6, 1e-8]))),
+    }
+
+
+def _code_tvd(cfg):
+    key = cfg["key"]
+    opts = {key + k: cfg[k] for k in ("method", "weight", "max_num_iter", "eps") if cfg[k] is not None}
+    return darsia.TVD(key=key, **opts) if key else darsia.TVD(**opts)
+
+
+def _ref_tvd_cfg(cfg):
+    """Independent reference: the wrapped skimage routine with exactly the configured options."""
+    kw = {k: cfg[k] for k in ("weight", "max_num_iter", "eps") if cfg[k] is not None}
+    if cfg["method"] in (None, "chambolle"):
+        return lambda x: skimage.restoration.denoise_tv_chambolle(x, **kw)
+    iso = cfg["method"] == "isotropic bregman"
+    return lambda x: skimage.restoration.denoise_tv_bregman(x, isotropic=iso, **kw)
 
 
 def _ref_reduce(kind, w):
@@ -115,7 +156,7 @@ def configs(draw, force=None):
     def pick(name, strategy):
         return force[name] if name in force else draw(strategy)
 
-    all_dtypes = ["uint8", "uint16", "float32", "float64"]
+    all_dtypes = ["uint8", "uint16", "int16", "int32", "float32", "float32", "float64", "float64"]
     rgb = pick("rgb", st.booleans())
     h, w = draw(st.integers(2, 16)), draw(st.integers(2, 16))
     dtype = pick("dtype", st.sampled_from(all_dtypes))
@@ -138,6 +179,12 @@ def configs(draw, force=None):
     xdtype = dtype if (nextra == 0 or draw(st.integers(0, 2)) > 0) else draw(st.sampled_from(all_dtypes))
     if reduction == "hsv" and xdtype[0] != "u":
         xdtype = dtype
+    restoration = pick("restoration", st.sampled_from([None, "spy", "spy", "tvd", "tvd-cfg", "tvd-cfg"]))
+    if restoration == "tvd-cfg" and reduction in ("gray", "hsv"):
+        # float32 round-off in these reductions could flip the iteration at which a loosely
+        # configured TV denoising stops; they keep the fixed, tightly terminated variant
+        restoration = "tvd"
+    tvd = draw(tvd_configs()) if restoration == "tvd-cfg" else None
     return {
         "rgb": bool(rgb), "shape": [h, w], "dtype": dtype, "pdtype": pdtype, "xdtype": xdtype,
         "nobase": bool(nobase),
@@ -145,7 +192,7 @@ def configs(draw, force=None):
         "diff": diff, "reduction": reduction,
         "weights": [draw(st.sampled_from([0.5, 0.25, -0.125, 1.0, 0.375, 2.0])) for _ in range(3)],
         "balancing": pick("balancing", st.sampled_from([None, "spy", "spy", "spy-inplace", "linear", "scaling"])),
-        "restoration": pick("restoration", st.sampled_from([None, "spy", "spy", "tvd"])),
+        "restoration": restoration, "tvd": tvd,
         "model": pick("model", st.sampled_from([None, "spy", "spy", "linear", "clip", "clip-open"])),
         "res_first": bool(draw(st.sampled_from([True, True, False]))),
         "cls": draw(st.sampled_from(["Image", "Optical" if rgb else "Scalar"])),
@@ -175,6 +222,10 @@ def gen_base(tier):
 
 def _array(case, dtype, seed):
     shape = list(case["shape"]) + ([3] if case["rgb"] else [])
+    if dtype in INT_DTYPES and dtype[0] == "i":
+        # signed integers: full range, both signs
+        info = np.iinfo(dtype)
+        return np.random.default_rng(seed).integers(info.min, info.max, size=shape, endpoint=True).astype(dtype)
     return gens.payload_array(shape, dtype, seed, dyadic=True)
 
 
@@ -227,7 +278,10 @@ class Setup:
                     "linear": darsia.LinearModel(scaling=2.0, offset=1.0),
                     "scaling": darsia.ScalingModel(scaling=2.0)}[bal]
         self.s_bal = None if code_bal is None else Spy("balancing", code_bal, self.log)
-        code_res = {None: None, "spy": RES["spy"], "tvd": darsia.TVD(**TVD_KW)}[res]
+        if res == "tvd-cfg":
+            code_res = _code_tvd(case["tvd"])
+        else:
+            code_res = {None: None, "spy": RES["spy"], "tvd": darsia.TVD(**TVD_KW)}[res]
         self.s_res = None if code_res is None else Spy("restoration", code_res, self.log)
         code_mod = {None: None, "spy": MOD["spy"], "linear": darsia.LinearModel(scaling=3.0, offset=-0.5),
                     "clip": darsia.ClipModel(**{"min value": 0.0, "max value": 1.0}),
@@ -236,7 +290,10 @@ class Setup:
         # reference maps
         self.r_red = _ref_reduce(red, w)
         self.r_bal = (lambda x: x) if bal is None else BAL[bal]
-        self.r_res = (lambda x: x) if res is None else (_ref_tvd if res == "tvd" else RES[res])
+        if res == "tvd-cfg":
+            self.r_res = _ref_tvd_cfg(case["tvd"])
+        else:
+            self.r_res = (lambda x: x) if res is None else (_ref_tvd if res == "tvd" else RES[res])
         self.r_mod = (lambda x: x) if mod is None else MOD[mod]
 
     def analysis(self):
@@ -319,9 +376,9 @@ class Setup:
         red, bal, res, mod = self.kinds
         c = self.case
         used = [c["pdtype"]] + ([] if c["nobase"] else [c["dtype"]]) + ([c["xdtype"]] if c["nextra"] else [])
-        ints = any(t in ("uint8", "uint16") for t in used)
+        ints = any(t in INT_DTYPES for t in used)
         f32 = "float32" in used or red == "gray"
-        inexact = red in ("gray", "hsv") or res == "tvd" or ints
+        inexact = red in ("gray", "hsv") or res in TVD_KINDS or ints
         if not inexact:
             return 0.0
         mag = max(1.0, float(np.max(np.abs(ref))) if np.size(ref) else 1.0)
@@ -348,7 +405,23 @@ def _labels(case):
             f"extra{case['nextra']}", "res->model" if case["res_first"] else "model->res",
             f"dtype-{case['dtype']}", "nobase" if case["nobase"] else "base",
             "extras-same-dtype" if case["xdtype"] == case["dtype"] else "extras-other-dtype",
-            f"bal-{case['balancing']}", f"res-{case['restoration']}", f"mod-{case['model']}")
+            f"bal-{case['balancing']}", f"res-{case['restoration']}", f"mod-{case['model']}",
+            f"probe-{_dtype_class(case['pdtype'])}") + _tvd_labels(case)
+
+
+def _dtype_class(t):
+    return "float" if t not in INT_DTYPES else ("signed-int" if t[0] == "i" else "unsigned-int")
+
+
+def _tvd_labels(case):
+    cfg = case.get("tvd")
+    if case["restoration"] != "tvd-cfg" or cfg is None:
+        return ()
+    return ("tvd-key-prefixed" if cfg["key"] else "tvd-key-empty",
+            f"tvd-method-{cfg['method']}",
+            "tvd-prefixed-eps" if (cfg["key"] and cfg["eps"] is not None) else "tvd-other-eps",
+            "tvd-all-options-given" if all(cfg[k] is not None for k in ("weight", "max_num_iter", "eps"))
+            else "tvd-some-defaults")
 
 
 def _nontrivial(case):
@@ -372,7 +445,7 @@ def _run(setup, ca, probe=None):
 # 1. baseline_to_zero
 # ---------------------------------------------------------------------------------------
 
-ZERO_PRESERVING = {"balancing": (None, "scaling"), "restoration": (None, "tvd"),
+ZERO_PRESERVING = {"balancing": (None, "scaling"), "restoration": (None, "tvd", "tvd-cfg"),
                    "model": (None, "clip")}
 
 
@@ -395,7 +468,7 @@ def check_baseline_to_zero(case):
             raise Violation("baseline-not-zero", f"baseline analysed against itself gives max |signal| = "
                             f"{float(np.abs(got).max())!r} (stages: {s.kinds})", t)
     else:
-        tol = 0.0 if case["restoration"] != "tvd" else 1e-5 * max(1.0, float(np.abs(want).max()))
+        tol = 0.0 if case["restoration"] not in TVD_KINDS else 1e-5 * max(1.0, float(np.abs(want).max()))
         if not np.all(np.abs(got - want) <= tol):
             raise Violation("baseline-not-stages-of-zero", "baseline analysed against itself differs from "
                             f"model(restoration(balancing(0))) by {float(np.abs(got - want).max())!r}", t)
@@ -441,6 +514,18 @@ def check_stage_order(case):
         if not s.close(rec[name][1], prev):
             raise Violation(f"stage-input:{name}", f"{name} did not receive the output of {prev_name}", t)
         prev, prev_name = rec[name][2], name
+    # the configured restoration, applied to exactly what the stage received, is the wrapped TV
+    # denoising with exactly the configured options (same routine, same input: no tolerance)
+    if "restoration" in rec and case["restoration"] in TVD_KINDS:
+        n += 1
+        want_out = np.asarray(s.r_res(rec["restoration"][1]))
+        got_out = rec["restoration"][2]
+        if got_out.shape != want_out.shape or not np.array_equal(got_out, want_out):
+            err = (float(np.max(np.abs(got_out.astype(float) - want_out.astype(float))))
+                   if got_out.shape == want_out.shape else "shape")
+            raise Violation("stage-output:restoration", f"the restoration stage ({case['restoration']}, options "
+                            f"{case.get('tvd') or TVD_KW}) maps its input to something else than TV denoising "
+                            f"with the configured options (max deviation {err!r})", t)
     return Outcome(_nontrivial(case), _key(case), _labels(case), evals=max(1, n))
 
 
@@ -515,7 +600,7 @@ def check_diff_options(case):
         piped[opt] = np.asarray(_run(s2, s2.analysis()).img).astype(float)
     n = 0
     for what, d in (("difference", observed), ("linear-pipeline", piped)):
-        dy = case["dtype"] not in ("uint8", "uint16") and case["pdtype"] not in ("uint8", "uint16")
+        dy = case["dtype"] not in INT_DTYPES and case["pdtype"] not in INT_DTYPES
         tol = 0.0 if (dy or what == "difference") else 1e-12 * max(1.0, float(np.abs(d["absolute"]).max()))
         n += 3
         if np.any(d["positive"] < 0) or np.any(d["negative"] < 0):
@@ -631,6 +716,11 @@ def gen_integer(tier):
         configs(force={"dtype": "uint16", "pdtype": "uint16"}),
         configs(force={"dtype": "uint8", "pdtype": "float64"}),
         configs(force={"dtype": "float64", "pdtype": "uint16"}),
+        # signed integer types are promoted just the same (to [-1, 1])
+        configs(force={"dtype": "int16", "pdtype": "int16"}),
+        configs(force={"dtype": "float64", "pdtype": "int32"}),
+        configs(force={"dtype": "uint8", "pdtype": "int64"}),
+        configs(force={"dtype": "int64", "pdtype": "float32"}),
     )
 
 
@@ -657,12 +747,16 @@ def check_integer_promotion(case):
 
 
 _RULE = ("Hypothesis draws the configuration: scalar / RGB, shape 2..16 x 2..16, dtype of baselines and "
-         "probe (uint8, uint16, float32, float64; mixed in 25 %), no baseline / single / list with 0-3 "
+         "probe (uint8, uint16, int16, int32 [int64 in integer_promotion], float32, float64; mixed in 25 %), no baseline / single / list with 0-3 "
          "extra baselines, diff option, reduction (none, '', callable weighted channel sum, built-in "
          "colour keys), balancing / restoration / model each absent, a recording spy with a small "
          "non-commuting map (2x+1, x^2+1/4, 3x-1/2; one variant works in place) or the real "
          "LinearModel / ScalingModel / TVD / ClipModel, both stage orders, image class and physical "
-         "metadata; payloads are dyadic (k/8) for floats and full-range for integers; non-trivial = "
+         "metadata; the TVD restoration is either fixed (Chambolle, 0.25 / 30 / 1e-5) or configured "
+         "through an option group: key prefix '' / 'restoration ' / 'tvd_', method Chambolle / "
+         "anisotropic / isotropic Bregman, weight, max_num_iter and eps each drawn (for Chambolle "
+         "also left out); payloads are dyadic (k/8) for floats and full-range (both signs for signed "
+         "types) for integers; non-trivial = "
          "RGB with a channel-dropping reduction, or >= 1 extra baseline, or model before restoration; "
          "distinct = the configuration incl. payload seed")
 
@@ -679,6 +773,14 @@ PROP = Prop(
         "then restoration/model in the configured order",
         "exact comparison for dyadic float payloads through exact maps; 1e-12 relative for integer "
         "inputs (1/255 scaling), 1e-5 where float32 data meets gray / TVD",
+        "a configured TVD restoration is the wrapped skimage routine (denoise_tv_chambolle / "
+        "denoise_tv_bregman) called with exactly the configured weight / max_num_iter / eps, whatever "
+        "key prefix the options carry; an option is left out only for Chambolle, where the wrapper's "
+        "default equals skimage's (0.1 / 200 / 2e-4); applied to the recorded stage input the comparison "
+        "is exact; a configured TVD is not combined with the float32 reductions gray / hsv (round-off "
+        "could move its stopping iteration)",
+        "every non-float dtype counts as integer-typed and is promoted with skimage.img_as_float "
+        "(unsigned -> [0, 1], signed -> [-1, 1]) for baselines and probe alike",
         "extra baselines are only combined with a signal that has no channel axis (the cleaning filter "
         "is 2-D); hsv reduction only on integer inputs and non-plain differences",
     ],
